@@ -85,6 +85,27 @@ def violated(rep, ex: Explorer):
                         sat_pred = not v
             rep.check(sat_pred is False, "MCS.violated", where, "clause unsatisfied", "a clause counts as violated iff no literal of the model occurs in it",
                       extracted=f"∃x∈model: x∈clause = {sat_pred}", required="False", function=site)
+    # early exits: reading off the owners may stop before all clauses were looked at only when the number of unsatisfied
+    # soft clauses found so far equals the cost of the optimum (then nothing further can be violated)
+    seen = set()
+    for p in paths:
+        for ev, Q in iter_events(p.events):
+            if ev.kind != "loop" or not Q:
+                continue
+            for c in ev.data.get("exits") or []:
+                if c.sig[0] != "return":
+                    continue
+                eq = [(k, v) for k, v in c.guard if k[0] == "cmp" and k[1] == "==" and isinstance(k[2], tuple) and k[2][0] == "lin"]
+                ok = False
+                for k, v in eq:
+                    terms = dict(k[2][1][0])
+                    counter = [t for t in terms if isinstance(t, tuple) and t[:1] == ("carried",) and t[-1] == "counter" or (isinstance(t, tuple) and t[:1] == ("carried",))]
+                    ok = ok or (v is True and "cost" in terms and len(counter) == 1 and terms["cost"] == -terms[counter[0]])
+                key = tuple((show_pred(k)[:80], v) for k, v in c.guard)
+                if key in seen:
+                    continue
+                seen.add(key)
+                rep.check(ok, "MCS.violated", site, f"early exit {len(seen)}", "the scan stops early only when as many unsatisfied clauses were found as the optimum costs", extracted=" ∧ ".join(f"{a}={b}" for a, b in key)[:300], required="counter == cost", function=site)
     rep.floor("MCS.violated record sites", n, 1)
 
 
@@ -283,6 +304,11 @@ def _loop(rep, ex: Explorer):
         elif none_model is False and viol_empty is True:
             rep.check(not back and len(appends) == 1 and not adds, "MCS.loop", site, "empty correction set", "a model that falsifies nothing is recorded (the empty set) and ends the enumeration",
                       extracted=f"loop back={back}, recorded={len(appends)}, blocked={len(adds)}", required="record ∅, stop", function=site)
+        elif none_model is False and viol_empty is None and computes:
+            others = [(k, v) for k, v in p.decisions if not (k[0] == "truthy" and isinstance(k[1], tuple) and k[1][:1] == ("mcall",)) and k[0] not in ("isnone", "truthy", "loopexit")]
+            if others:
+                rep.violation("MCS.loop", site, "termination test", "after a model was found the enumeration stops exactly when it falsifies nothing; every other found set is recorded, blocked and the search goes on",
+                              extracted="stops / continues on " + "; ".join(show_pred(k if v else ("not", k))[:120] for k, v in others), required="found set == ∅", function=site)
         elif none_model is False and viol_empty is False:
             okb = False
             for e in adds:
@@ -371,6 +397,13 @@ def z3mcs(rep, ex: Explorer, cls: str, prop_three_way=True):
                         found_empty = val
             back = p.outcome[0] == "loopback"
             appended = [ev for ev, Q in evs if ev.kind == "list.append" and not Q]
+            if found_empty is None:
+                # the loop is steered by something else than "the found set is empty"
+                others = [(k, v) for k, v in p.decisions if k[0] not in ("check", "partfalse")]
+                if others:
+                    rep.violation("Z3MCS.loop", site, "termination test", "after recording a found set the enumeration stops exactly when that set is empty (nothing more can be falsified less); every other set is blocked and the search goes on",
+                                  extracted="stops / continues on " + "; ".join(show_pred(k if v else ("not", k))[:120] for k, v in others), required="found set == ∅", function=site)
+                continue
             if found_empty is True:
                 rep.check(not back and len(appended) == 1, "Z3MCS.loop", site, "empty set", "the empty set is recorded and ends the enumeration", extracted=f"loop back={back}, recorded={len(appended)}", required="record, stop", function=site)
             elif found_empty is False:
